@@ -722,18 +722,34 @@ Qed.
    offset / r and the sample window at start / r, length / r, the 16 text fields and SELECTABLE unchanged, and whose charts
    are, in order, the source's charts: header fields equal and for every kind of object the denoted objects are the
    source's up to order, each in its column at EXACTLY time / r with length / r (the exact domain is the row grid: nothing
-   moves). *)
+   moves); and whose tempo list (C03's sm_write_tempo) has one point per tempo row, at offset / r with bpm * r. *)
+Lemma tempo_rated r s d init l :
+  match s_maps (sm_set_rate r s) with
+  | c0 :: _ => tempo_script_of live_conf (c_bpms c0) = Some (init, l) /\ tempo_denotes d (c_bpms c0) init l
+  | [] => False end -> tempo_survives r s d.
+Proof.
+  unfold tempo_survives. cbn [sm_set_rate s_maps]. destruct (s_maps s) as [|c0 cs]; cbn [map]; [tauto|].
+  intros [_ [L H]]. cbn [sm_chart_rate c_bpms] in *. rewrite map_length in L. split; [exact L|].
+  intros b Hb. destruct (H (tempo_rate r b) (in_map _ _ _ Hb)) as [tp [I [_ [B M]]]]. exists tp. split; [exact I|].
+  unfold tempo_rate in B, M. cbn [fst snd] in B, M. split.
+  - rewrite M. apply Qred_correct.
+  - rewrite B. apply Qred_correct.
+Qed.
+
 Theorem sm_rate_survives_write r s : c03_domb (sm_set_rate r s) = true ->
   exists toks, sm_write live_conf current (sm_set_rate r s) = Some toks /\
     forall txt, match_toks 0 toks txt = true ->
       exists d, sm_denote txt = Some d /\ header_survives r s d /\
                 Forall2 (chart_survives r) (d_charts d) (s_maps s) /\
                 forallb2 (fun tag v => match lookup_last tag (d_items d) None with Some x => text_eqb x v | None => false end)
-                         text_field_tags (s_txt s) = true.
+                         text_field_tags (s_txt s) = true /\
+                tempo_survives r s d.
 Proof.
-  intro Hd. destruct (sm_write_denotes _ Hd) as [toks [W H]]. exists toks. split; [exact W|].
-  intros txt M. destruct (H txt M) as [d [D [Hh Hc]]]. exists d. split; [exact D|].
-  destruct (header_rated r s d Hh) as [H1 [H2 _]]. split; [exact H1|]. split; [|exact H2].
+  intro Hd. destruct (sm_write_denotes _ Hd) as [toks [W H]]. destruct (sm_write_tempo _ Hd) as [toks' [W' H']].
+  rewrite W in W'. inversion W'; subst toks'. exists toks. split; [exact W|].
+  intros txt M. destruct (H txt M) as [d [D [Hh Hc]]]. destruct (H' txt M) as [d' [D' [init [l T]]]].
+  rewrite D in D'. inversion D'; subst d'. exists d. split; [exact D|].
+  destruct (header_rated r s d Hh) as [H1 [H2 _]]. split; [exact H1|]. split; [|split; [exact H2|exact (tempo_rated r s d init l T)]].
   cbn [sm_set_rate s_maps] in Hc. apply Forall2_map_r in Hc. eapply Forall2_impl'; [|exact Hc].
   intros dc c [Hm Hk]. split; [exact Hm|]. intro k. apply perm_eqv_rated. apply Hk.
 Qed.
